@@ -60,6 +60,9 @@ def instances(tier, seed):
     out.append({'id': 'qtz_disable_sampling', 'what': 'disable'})
     out.append({'id': 'qtz_update_sequence', 'what': 'updates', 'deep': tier != 'quick'})
     out.append({'id': 'mps_model', 'what': 'model'})
+    for hard, gumbel in ((True, False), (False, False), (True, True)) if tier == 'quick' else itertools.product([False, True], [False, True]):
+        for wt in ('layer', 'channel'):
+            out.append({'id': f'mps_model_options:{wt}:hard={int(hard)}:gs={int(gumbel)}', 'what': 'model_opts', 'hard': hard, 'gumbel': gumbel, 'wtype': wt})
     return out
 
 
@@ -106,7 +109,13 @@ def replay(rec):
     obs = rec['observable']
     if rec['what_kind'] == 'model':
         return _replay_model(rec)
-    if rec['what_kind'] == 'combiner':
+    if rec['what_kind'] == 'model_opts':
+        theta, q = _replay_model_opts(rec)
+        A = torch.tensor([float(Fraction(v)) for v in rec['alpha']]).reshape(rec['shape'])
+        if theta.dim() == 1:
+            theta, A = theta.reshape(-1, 1), A.reshape(-1, 1)
+        am = [int(i) for i in torch.argmax(A, dim=0)]
+    elif rec['what_kind'] == 'combiner':
         theta, c = concrete_combiner(rec)
         best = c.best_layer_index()
         theta = theta.reshape(-1, 1)
@@ -223,7 +232,7 @@ def _and(xs):
 def run_instance(p):
     res = InstanceResult(p['id'])
     selftest = p.get('selftest', False)
-    {'qtz': _run_qtz, 'combiner': _run_combiner, 'disable': _run_disable, 'updates': _run_updates, 'model': _run_model}[p['what']](res, p, selftest)
+    {'qtz': _run_qtz, 'combiner': _run_combiner, 'disable': _run_disable, 'updates': _run_updates, 'model': _run_model, 'model_opts': _run_model_opts}[p['what']](res, p, selftest)
     return res
 
 
@@ -397,9 +406,11 @@ def _run_disable(res, p, selftest):
 
 def _run_updates(res, p, selftest):
     """option updates before the forward pass: the sampled coefficients obey the options the user set last"""
-    seqs = [[('hard', True)], [('hard', False)], [('temperature', 'T')], [('hard', True), ('temperature', 'T')], [('temperature', 'T'), ('hard', True)]]
+    seqs = [[('hard', True)], [('hard', False)], [('temperature', 'T')], [('hard', True), ('temperature', 'T')], [('temperature', 'T'), ('hard', True)],
+            # an option switched on and off again: the last setting counts
+            [('gumbel', True), ('gumbel', False), ('hard', True)], [('hard', True), ('hard', False)]]
     if p.get('deep'):
-        seqs += [[('hard', True), ('hard', False)], [('gumbel', True)], [('gumbel', True), ('hard', True)], [('hard', True), ('gumbel', True)]]
+        seqs += [[('gumbel', True)], [('gumbel', True), ('hard', True)], [('hard', True), ('gumbel', True)]]
     for shape in ([3], [2, 2]):
         for training in (True, False):
             for seq in seqs:
@@ -571,3 +582,51 @@ def _run_model(res, p, selftest):
     res.witnesses += 1
     res.witnesses_ok += 1 if ex.n_paths > 1 else 0
     res.absorb(ex)
+
+
+# ---------------------------------------------------------------------------------------------------------------------
+def _replay_model_opts(rec):
+    m = _mk_model(rec['wtype'])
+    m.train()
+    m.update_softmax_options(hard=rec['hard'], gumbel=rec['gumbel'])
+    q = dict(_qtzs(m))[rec['qtz']]
+    shape = list(q.alpha.shape)
+    with torch.no_grad():
+        q.alpha.copy_(torch.tensor([float(Fraction(v)) for v in rec['alpha']]).reshape(shape))
+    torch.manual_seed(rec.get('rng', 0))
+    q.sample_alpha()
+    return q.theta_alpha.detach().reshape(shape), q
+
+
+def _run_model_opts(res, p, selftest):
+    """options set on the MPS model (training mode) reach every selector of every layer: the coefficients each selector
+    samples afterwards obey them"""
+    hard, gumbel, wtype = p['hard'], p['gumbel'], p['wtype']
+    m = _mk_model(wtype)
+    m.train()
+    m.update_softmax_options(hard=hard, gumbel=gumbel)
+    for name, q in _qtzs(m):
+        shape = list(q.alpha.shape)
+
+        def fn(ex):
+            with SymMode():
+                a = SymTensor.fresh('alpha', shape)
+                _assume_gaps(ex, st.to_arr(a))
+                with st.swapped_params([(q, 'alpha', a)]):
+                    old_th = q.theta_alpha
+                    q.sample_alpha()
+                    theta = st.to_arr(q.theta_alpha).copy()
+                    q.theta_alpha = old_th
+            return a, theta
+        ex = Explorer(timeout_ms=Q)
+        for pc, (a, theta) in ex.explore(fn):
+            obs = _theta_obligations(ex, theta, st.to_arr(a), _expect_onehot(hard, gumbel, True), selftest)
+
+            def mk_rec(mm, bad):
+                m2 = _grid(ex, a.elems(), [bad]) or mm
+                return {'what_kind': 'model_opts', 'qtz': name, 'wtype': wtype, 'shape': shape, 'hard': hard, 'gumbel': gumbel, 'training': True,
+                        'alpha': [st.model_value(m2, v) for v in a.elems()], 'temperature': 1}
+            _check_all(res, ex, obs, f'MPS.update_softmax_options(hard={hard}, gumbel={gumbel}) -> {name}', mk_rec, selftest,
+                       f'model_options|{name.split(".")[-1]}|{type(q).__name__}|hard={int(hard)}|gs={int(gumbel)}')
+        res.absorb(ex)
+    res.sample({'selectors': [n for n, _ in _qtzs(m)], 'hard': hard, 'gumbel': gumbel})
